@@ -565,4 +565,50 @@ def serveRaw (cfg : Cfg) (fuel : Nat) (r : RawReq) : Option HttpOut :=
   | none => none
   | some p => some (serveHTTP cfg fuel { method := r.method, path := p, auth := r.auth, db := r.db })
 
+/-! ### which handler runs: routing and authorisation look at the same method
+
+`Handler.ServeHTTP` picks the per-method mux by `r.Method` and by nothing else (re-read from the source by the
+extractor on every run: `Gen.serveHTTPMethodSources`); `authorizeRequest` reads the same `r.Method`. The routing method
+is a PARAMETER here so that a variant that derives it from a request header can be run against the same chain. -/
+
+abbrev Headers := List (List Char × List Char)
+
+/-- The method the mux is chosen by: the one on the wire; the headers are not looked at. -/
+def wireMethod (m : List Char) (_ : Headers) : List Char := m
+
+/-- The variant this layer guards against (never in /repo): a POST carrying `X-HTTP-Method-Override: PUT|PATCH|DELETE`
+(any case) is ROUTED as that verb while `r.Method` stays what it was. -/
+def overrideMethod (m : List Char) (h : Headers) : List Char :=
+  if m = "POST".toList then
+    match h.find? (fun e => e.1.map Char.toLower = "x-http-method-override".toList) with
+    | some e =>
+      let o := toUpper e.2
+      if o = "PUT".toList ∨ o = "PATCH".toList ∨ o = "DELETE".toList then o else m
+    | none => m
+  else m
+
+/-- One pass of the chain, returning WHICH registered route's handler runs (none: redirect, refusal, 404, the
+CORS short cut for OPTIONS). The mux is chosen by `route req.method hdrs`; cors, authenticate and authorizeRequest
+read `req.method` as in `serveLevel`. -/
+def ranLevel (route : List Char → Headers → List Char) (cfg : Cfg) (again : Req → Option Route) (hdrs : Headers)
+    (req : Req) : Option Route :=
+  if !allowedMethods.contains (route req.method hdrs) then none
+  else if muxCleanPath req.path ≠ req.path then none
+  else match muxMatch (builtinRoutes ++ cfg.extra) (route req.method hdrs) req.path with
+    | none => none
+    | some r =>
+      if req.method = "OPTIONS".toList then none
+      else match authenticate (routeRequiresAuth cfg r) cfg.svc req.auth with
+        | .rejected => none
+        | .inner u _ =>
+          if !authorizeRequest req.method req.path u then none
+          else match r.kind with
+            | .notFound => none
+            | .preview => if preview.isPrefixOf req.path then again (rewritten req) else none
+            | _ => some r
+
+def ranRoute (route : List Char → Headers → List Char) (cfg : Cfg) (hdrs : Headers) : Nat → Req → Option Route
+  | 0, _ => none
+  | fuel + 1, req => ranLevel route cfg (ranRoute route cfg hdrs fuel) hdrs req
+
 end Kap.C20
